@@ -189,7 +189,9 @@ PullGuards(s, max, out, queueAfter, t, abandoned, early) ==
 ExpireGuards(s, acks, t, judgeLate, early) ==
     { G("BIND", acks # <<>> /\ NoDup(acks)),
       G("C02", SeqSet(acks) \subseteq DOMAIN s.lease),     \* never an acknowledged / nacked delivery
-      G("C04", \A i \in 1..Len(acks) : acks[i] \in DOMAIN s.lease => t >= s.lease[acks[i]].lo - early),
+      G("C04", \A i \in 1..Len(acks) : (acks[i] \in DOMAIN s.lease /\ ~s.lease[acks[i]].md) => t >= s.lease[acks[i]].lo - early),
+      \* (before the deadline a ModifyAckDeadline set: the modification did not replace the deadline, C05)
+      G("C04,C05", \A i \in 1..Len(acks) : (acks[i] \in DOMAIN s.lease /\ s.lease[acks[i]].md) => t >= s.lease[acks[i]].lo - early),
       \* not later than the slack after the deadline (C04) - also after a ModifyAckDeadline moved it
       \* ("the C04 redelivery rule then applies to the new deadline": C05)
       G("C04", judgeLate => \A i \in 1..Len(acks) : (acks[i] \in DOMAIN s.lease /\ ~s.lease[acks[i]].md) => t <= s.lease[acks[i]].hi),
@@ -215,8 +217,12 @@ CoreInit ==
 (***************************************************************************)
 (* Manager critical sections.                                              *)
 (***************************************************************************)
+\* (a name that NEVER existed and is treated as bound, or resolved to a resource, is taken for
+\* another name: "names that differ in project or ID denote different resources", C18)
+TopicNameEver(name) == \E x \in DOMAIN T : T[x].name = name
+SubNameEver(name) == \E x \in DOMAIN S : S[x].name = name
 MgrCreateTopic_G(name, ti, ok) ==
-    { G("C10", ok <=> name \notin DOMAIN tmap),
+    { G(IF TopicNameEver(name) THEN "C10" ELSE "C10,C18", ok <=> name \notin DOMAIN tmap),
       G("C09", ok => ti \notin DOMAIN T) }            \* incarnations are never reused
 MgrCreateTopic_A(name, ti, ok) ==
     /\ IF ok
@@ -237,12 +243,12 @@ MgrRemoveTopic(name, ti) == AllHold(MgrRemoveTopic_G(name, ti)) /\ MgrRemoveTopi
 
 \* A lookup under the read lock.
 MgrGetTopic_G(name, ti) ==
-    { G("C10", ti = (IF name \in DOMAIN tmap THEN tmap[name] ELSE None)) }
+    { G(IF TopicNameEver(name) THEN "C10" ELSE "C10,C18", ti = (IF name \in DOMAIN tmap THEN tmap[name] ELSE None)) }
 MgrGetTopic(name, ti) == AllHold(MgrGetTopic_G(name, ti)) /\ UNCHANGED coreVars
 
 MgrInsertSub_G(name, si, ti, d, push, ok) ==
     { \* refused exactly when the name is bound ...
-      G("C10", ~ok => name \in DOMAIN smap),
+      G(IF SubNameEver(name) THEN "C10" ELSE "C10,C18", ~ok => name \in DOMAIN smap),
       \* ... a create that replaces a bound name also orphans the old incarnation, which stays in
       \* its topic's list (C11)
       G("C10,C11", ok => name \notin DOMAIN smap),
@@ -268,7 +274,7 @@ MgrRemoveSub_A(name, si) ==
 MgrRemoveSub(name, si) == AllHold(MgrRemoveSub_G(name, si)) /\ MgrRemoveSub_A(name, si) /\ now' = now
 
 MgrGetSub_G(name, si) ==
-    { G("C10", si = (IF name \in DOMAIN smap THEN smap[name] ELSE None)) }
+    { G(IF SubNameEver(name) THEN "C10" ELSE "C10,C18", si = (IF name \in DOMAIN smap THEN smap[name] ELSE None)) }
 MgrGetSub(name, si) == AllHold(MgrGetSub_G(name, si)) /\ UNCHANGED coreVars
 
 \* PushSubscriptionsRegistry::set: insert-if-absent, or removal.
@@ -390,7 +396,10 @@ SubModify_G(si, mods, queueAfter, early) ==
     IF si \notin DOMAIN S THEN { G("BIND", FALSE) } ELSE
     IF S[si].st # "live" THEN {} ELSE
     ModGuards(S[si], mods, early) \cup
-    { G("C05", SameElementsPlus(queueAfter, S[si].queue, NackedBy(S[si], mods))),
+    { \* a nack returns the message to the queue - once (a message queued twice is delivered twice:
+      \* acknowledging one delivery leaves the other to come after the acknowledgement, C02; and both
+      \* copies can be out at once, C03)
+      G(IF NoDup(queueAfter) THEN "C05" ELSE "C02,C03,C05", SameElementsPlus(queueAfter, S[si].queue, NackedBy(S[si], mods))),
       G("C08", SameOrderOf(queueAfter, S[si].queue, SeqSet(S[si].queue) \ S[si].seen)) }
 SubModify_A(si, mods, queueAfter) ==
     /\ S' = IF S[si].st = "live"
